@@ -275,4 +275,25 @@ PROPS.update({
         "assumptions": ["a message is what serde_json::to_value shows of it (rules read public fields only)",
                         "sums of amounts are compared exactly in the model; the implementation's f64 comparison agrees away from the 0.01 boundary (boundary mutants are not generated)"],
     },
+    "C08": {
+        "streams": ["c08", "fields"],
+        "stream_args": {"fields": ["--prop", "C08", "--modelled", "@modelled"]},
+        "driver": True,
+        "extractors": ["T3s"],
+        "instances": lambda gen: len(gen.get("shapes", {}).get("structs", [])) + len(gen.get("shapes", {}).get("enums", [])),
+        "rule": "c08: for each of the 30 types, messages generated from the independent layout grammar (all option letters, 0..max repetitions; "
+                "contents from the library's own spellings plus dates at both ends of the century window and currencies of precision 0, 2, 3, 4), "
+                "with and without user header / trailer, parsed with the typed API; then from_value(to_value(m)) must give the same JSON and the "
+                "same MT text, publish_mt(to_value(m)) must equal to_mt_message(), the JSON must contain no empty placeholder and only finite "
+                "numbers, and the body / header JSON must conform to the regenerated struct and enum declarations (decided by the Lean driver). "
+                "fields: every accepted content of all 114 field types through to_value / from_value (value equality). Non-trivial = accepted; "
+                "distinct = (type, text).",
+        "modelled": "serde shapes of all 143 structs and 27 enums regenerated from the source (T3s: rename, flatten, skip_serializing_if, default, "
+                    "with, untagged, tag, type aliases); clean_null_fields, the 12-character address normalisation and the 13C/13D string codecs "
+                    "by hand; serde's derive semantics themselves are assumed (attribute subset listed in DESIGN.md)",
+        "trusted_base": [KERNEL, TRANSLATOR, HARNESS,
+                         "SwiftMT/JsonShape.lean: what the recognised serde attributes mean for the JSON form (conformance is checked against every real to_value output)",
+                         "serde / serde_json derive semantics for the attribute subset in use"],
+        "assumptions": ["chrono's default serde for NaiveDate is the ISO date string (checked by conformance on every generated message)"],
+    },
 })
